@@ -22,6 +22,133 @@ def parseImg (j : Json) : R Img := do
   if shape.any (· == 0) then throw "empty axis"
   pure { shape := shape, get := mkGet shape data.toArray }
 
+/-! ## array twin of the correlation (evaluation machinery, NOT part of the model)
+
+The model reads an image through a function on index lists; `xcorr` / `xcorrCirc` cost about half a
+microsecond per product, which rules out axes whose transform length exceeds 1024 (10^6 .. 10^8
+products per call).  The twin below evaluates the same two sums on flat integer arrays (values are
+brought to a common denominator, the common factor of the numerators is taken out):
+
+* `fastLin`  — `xcorr a b l`  (`Σ_{n ∈ box b} a[n + l] · b[n]`, reads outside `a` are zero),
+* `fastCirc` — `xcorrCirc a b k` (`Σ_{n ∈ box b} apad[(n + k) mod s] · b[n]`; the terms `n ∉ box b`, which
+  the model adds as zeros, are skipped),
+
+and `peakOf` / `registerOf` are `Pew.Register.peak` / `register` with the correlation passed in.
+The twin is tied to the model at run time: `c12.register` (every case below the cost limit) evaluates
+the model AND the twin over the whole lag box and refuses to answer when they differ in anything;
+`c12.registerLong` cross-checks the twin against `xcorr` and `xcorrCirc` of the model at the decisive lags
+(maximum, runner-up, true translation, the implementation's answer, the mechanism's answer, the corners
+of the lag box, zero lag and a spread of other lags). -/
+
+structure FImg where
+  shape : List Nat
+  strides : List Nat
+  data : Array Int
+  /-- value = data · scale -/
+  scale : Rat
+
+def stridesOf : List Nat → List Nat
+  | [] => []
+  | _ :: ss => ss.foldl (· * ·) 1 :: stridesOf ss
+
+def toFImg (shape : List Nat) (data : List Rat) : FImg :=
+  let D := data.foldl (fun d q => Nat.lcm d q.den) 1
+  let ints := data.map fun q => q.num * ((D / q.den : Nat) : Int)
+  let G := ints.foldl (fun g v => Nat.gcd g v.natAbs) 0
+  let G := if G = 0 then 1 else G
+  { shape := shape, strides := stridesOf shape, data := (ints.map (· / (G : Int))).toArray,
+    scale := mkRat (G : Int) D }
+
+def sumLoop (lo n : Nat) (f : Nat → Int) : Int := go n lo 0
+where
+  go : Nat → Nat → Int → Int
+    | 0, _, acc => acc
+    | k + 1, i, acc => go k (i + 1) (acc + f i)
+
+/-- axes: `(a, b, stride of a, stride of b)` -/
+def linGo (A B : Array Int) : List (Nat × Nat × Nat × Nat) → List Int → Nat → Nat → Int
+  | [], _, ia, ib => A.getD ia 0 * B.getD ib 0
+  | [(a, b, sa, sb)], [l], ia, ib =>
+    -- innermost axis, the same sum as the general case written without the recursive call
+    let lo := (-l).toNat
+    let hi := min b ((a : Int) - l).toNat
+    sumLoop lo (hi - lo) fun n => A.getD (ia + ((n : Int) + l).toNat * sa) 0 * B.getD (ib + n * sb) 0
+  | (a, b, sa, sb) :: rest, l :: ls, ia, ib =>
+    -- the `n` with `0 ≤ n + l < a`, `n < b`
+    let lo := (-l).toNat
+    let hi := min b ((a : Int) - l).toNat
+    sumLoop lo (hi - lo) fun n => linGo A B rest ls (ia + ((n : Int) + l).toNat * sa) (ib + n * sb)
+  | _ :: _, [], _, _ => 0
+
+def circGo (A B : Array Int) : List (Nat × Nat × Nat × Nat) → List Nat → Nat → Nat → Int
+  | [], _, ia, ib => A.getD ia 0 * B.getD ib 0
+  | [(a, b, sa, sb)], [k], ia, ib =>
+    let s := a + b - 1
+    sumLoop 0 b fun n =>
+      let m := (n + k) % s
+      if m < a then A.getD (ia + m * sa) 0 * B.getD (ib + n * sb) 0 else 0
+  | (a, b, sa, sb) :: rest, k :: ks, ia, ib =>
+    let s := a + b - 1
+    sumLoop 0 b fun n =>
+      let m := (n + k) % s
+      if m < a then circGo A B rest ks (ia + m * sa) (ib + n * sb) else 0
+  | _ :: _, [], _, _ => 0
+
+def axesOf (a b : FImg) : List (Nat × Nat × Nat × Nat) :=
+  (List.zip (List.zip a.shape b.shape) (List.zip a.strides b.strides)).map
+    fun p => (p.1.1, p.1.2, p.2.1, p.2.2)
+
+def fastLin (a b : FImg) (l : List Int) : Rat :=
+  ((linGo a.data b.data (axesOf a b) l 0 0 : Int) : Rat) * (a.scale * b.scale)
+
+def fastCirc (a b : FImg) (k : List Nat) : Rat :=
+  ((circGo a.data b.data (axesOf a b) k 0 0 : Int) : Rat) * (a.scale * b.scale)
+
+/-- `Pew.Register.peak` with the correlation passed in -/
+def peakOfTable (tbl : List (List Int × Rat)) : Option Peak :=
+  match tbl with
+  | [] => none
+  | p :: ps =>
+    let best := ps.foldl (fun best q => if best.2 < q.2 then q else best) p
+    let others := ((p :: ps).filter (fun q => q.1 != best.1)).map (·.2)
+    let ru := match others with
+      | [] => none
+      | o :: os => some (os.foldl (fun m v => if m < v then v else m) o)
+    some { lag := best.1, value := best.2, runnerUp := ru }
+
+def peakOf (f : List Int → Rat) (ls : List (List Int)) : Option Peak :=
+  peakOfTable (ls.map (fun l => (l, f l)))
+
+/-- `Pew.Register.register` with the circular correlation passed in -/
+def registerOf (f : List Nat → Rat) (sa sb : List Nat) : List Int :=
+  let s := padShape sa sb
+  match argmaxFirst f (allIdx s) with
+  | some (k, _) => decode sa s k
+  | none => []
+
+def parseBoth (j : Json) : R (Img × FImg) := do
+  let shape ← getList asNat j "shape"
+  let data ← getList asRat j "data"
+  if data.length ≠ shape.foldl (· * ·) 1 then throw "data/shape mismatch"
+  if shape.any (· == 0) then throw "empty axis"
+  pure ({ shape := shape, get := mkGet shape data.toArray }, toFImg shape data)
+
+def samePeak (p q : Peak) : Bool :=
+  p.lag == q.lag && p.value == q.value && p.runnerUp == q.runnerUp
+
+/-- a spread of lags of the lag box: its corners, zero lag, and `n` further lags picked by a fixed
+linear congruence over the flat lag index -/
+def spreadLags (sa sb : List Nat) (n : Nat) : List (List Int) :=
+  let s := padShape sa sb
+  let total := s.foldl (· * ·) 1
+  let unflat (i : Nat) : List Int :=
+    let (_, ds) := s.foldr (fun d (acc : Nat × List Nat) => (acc.1 / d, (acc.1 % d) :: acc.2)) (i, [])
+    (List.zip ds sb).map fun p => (p.1 : Int) - ((p.2 : Int) - 1)
+  let corners := (List.zip sa sb).foldr
+    (fun p (acc : List (List Int)) => acc.flatMap fun r => [(-((p.2 : Int) - 1)) :: r, ((p.1 : Int) - 1) :: r]) [[]]
+  let picks := (List.range n).map fun i => unflat ((i * 2654435761 + 12345) % total)
+  (sa.map fun _ => (0 : Int)) :: corners ++ picks
+
 def parseAnchor (s : String) : R Anchor :=
   match s with
   | "top left" => pure .topLeft
@@ -36,15 +163,53 @@ def jPair (p : Int × Int) : Json := jList jInt [p.1, p.2]
 def handle (op : String) (req : Json) : R Json := do
   match op with
   | "c12.register" =>
-    let a ← fld req "a" >>= parseImg
-    let b ← fld req "b" >>= parseImg
+    -- the model over the whole lag box, and the array twin beside it: they must agree in everything
+    let (a, fa) ← fld req "a" >>= parseBoth
+    let (b, fb) ← fld req "b" >>= parseBoth
     if a.shape.length ≠ b.shape.length then throw "dimension mismatch"
     let model := register a b
-    match peak a b with
-    | none => throw "empty lag box"
-    | some pk =>
+    let model' := registerOf (fastCirc fa fb) a.shape b.shape
+    if model != model' then throw s!"array twin differs from the model (register): {model} vs {model'}"
+    match peak a b, peakOf (fastLin fa fb) (lags a.shape b.shape) with
+    | some pk, some pk' =>
+      if !samePeak pk pk' then
+        throw s!"array twin differs from the model (peak): {pk.lag} {pk.value} vs {pk'.lag} {pk'.value}"
       pure (jObj [("model", jList jInt model), ("lag", jList jInt pk.lag), ("max", jRat pk.value),
                   ("runner", jOpt jRat pk.runnerUp)])
+    | _, _ => throw "empty lag box"
+  | "c12.registerLong" =>
+    -- long axes: the array twin over the whole lag box, the model at the decisive lags
+    let (a, fa) ← fld req "a" >>= parseBoth
+    let (b, fb) ← fld req "b" >>= parseBoth
+    if a.shape.length ≠ b.shape.length then throw "dimension mismatch"
+    let asked ← getList (asList asInt) req "probe"
+    let s := padShape a.shape b.shape
+    let ls := lags a.shape b.shape
+    let table := ls.map (fun l => (l, fastLin fa fb l))
+    let model := registerOf (fastCirc fa fb) a.shape b.shape
+    match peakOfTable table with
+    | none => throw "empty lag box"
+    | some pk =>
+      let ruLag := match pk.runnerUp with
+        | some v => ((table.find? (fun q => q.1 != pk.lag && q.2 == v)).map (·.1)).toList
+        | none => []
+      let probes := ((pk.lag :: model :: ruLag) ++ asked ++ spreadLags a.shape b.shape 12).filter
+        (inLagBox a.shape b.shape)
+      let mut seen : List (List Int) := []
+      let mut values : List (List Int × Rat) := []
+      for l in probes do
+        if !seen.contains l then
+          seen := l :: seen
+          let v := xcorr a b l
+          if v != fastLin fa fb l then throw s!"array twin differs from the model: xcorr at lag {l}"
+          let k := encode s l
+          if xcorrCirc a b k != fastCirc fa fb k then throw s!"array twin differs from the model: xcorrCirc at {k}"
+          if decode a.shape s k != l then throw s!"decode (encode {l}) differs"
+          values := (l, v) :: values
+      let valueAt (l : List Int) : Json := jOpt jRat ((values.find? (·.1 == l)).map (·.2))
+      pure (jObj [("model", jList jInt model), ("lag", jList jInt pk.lag), ("max", jRat pk.value),
+                  ("runner", jOpt jRat pk.runnerUp), ("probed", jNat seen.length),
+                  ("asked", jList valueAt asked)])
   | "c12.anchor" =>
     -- every anchor for one `a` shape and a list of `b` shapes
     let a ← getList asInt req "a"
